@@ -1,6 +1,6 @@
 #!/bin/sh
 # run every registered quick check on the unchanged tree (rewrites evidence/), print one line per check
-cd "$(dirname "$0")/.."
+cd "$(dirname "$0")/.." && ./setup.sh
 for id in $(.ov/bin/python -c "import json;print(' '.join(c['property_id'] for c in json.load(open('MANIFEST.json'))['checks']))"); do
   ./check $id --tier "${TIER:-quick}" > /tmp/runall_$id.log 2>&1; echo "$id exit=$? $(grep -E '^C[0-9]+ tier' /tmp/runall_$id.log | cut -c1-140)"
   grep -E "^(VIOLATION|KNOWN|UNDECIDED|CHECKER-ERROR)" /tmp/runall_$id.log | cut -c1-200
